@@ -92,7 +92,9 @@ def shards(tier: str):
 
 def floors(tier: str):
     need = 50 if tier == "quick" else 2000
-    return {f"kind:{g}:{k}": need for g in (4, 5) for k in gens.KINDS[g]}
+    f = {f"kind:{g}:{k}": need for g in (4, 5) for k in gens.KINDS[g]}
+    f["payload-over-255-bytes"] = 40
+    return f
 
 
 def _case_strategy(gen: int, kind: str):
@@ -204,7 +206,8 @@ def check_case(gen: int, kind: str, items, pid0: int, stats: Stats | None = None
     if stats is not None:
         hdrs = [h for _, h in items]
         nt = _nontrivial([m for m, _ in items], hdrs) or len(wire) > 3 * (refproto.header_len(gen) + 2) + 3 * 12
-        stats.case(wire.hex(), nt, classes=[f"kind:{gen}:{kind}", "explicit-header" if any(hdrs) else "factory-header"],
+        big = ["payload-over-255-bytes"] if any(len(fr.data) > 255 for fr in pr.frames) else []
+        stats.case(wire.hex(), nt, classes=[f"kind:{gen}:{kind}", "explicit-header" if any(hdrs) else "factory-header"] + big,
                    sample={"gen": gen, "kind": kind, "wire": wire.hex()[:400],
                            "messages": [ser.brief(m, 200) for m, _ in items]})
 
